@@ -17,6 +17,7 @@ import (
 type UnitSpec struct {
 	Fn          string   `json:"fn"`
 	Mode        string   `json:"mode"`                   // contract | sweep
+	Interfere   bool     `json:"interfere,omitempty"`    // model interference on atomic_only locations
 	Tags        []string `json:"tags,omitempty"`         // keep only obligations carrying one of these tags (contract mode)
 	Kinds       []string `json:"kinds,omitempty"`        // keep only these kinds
 	AllUntagged bool     `json:"all_untagged,omitempty"` // also keep untagged obligations
@@ -49,7 +50,12 @@ func (eng *Engine) runUnit(us UnitSpec) (res *UnitResult) {
 	}
 	ex := newExec(eng, us.Fn)
 	ex.sweep = us.Mode == "sweep"
+	ex.interfere = us.Interfere
+	ex.unitTags = us.Tags
 	ex.hintPrefix = us.Mode + "|"
+	if us.Interfere {
+		ex.hintPrefix += "interfere|"
+	}
 	if us.Locks {
 		ex.hintPrefix += "locks|"
 	}
@@ -78,6 +84,11 @@ func (eng *Engine) runUnit(us UnitSpec) (res *UnitResult) {
 		eng.inlineOverride[k] = true
 	}
 	defer func() {
+		if us.Interfere {
+			for _, o := range ex.obls {
+				o.Name += "@interfere"
+			}
+		}
 		res.Obls = ex.obls
 		res.Notes = append(res.Notes, ex.notes...)
 		res.Assumed = sortedKeysB(ex.assumedUsed)
@@ -108,7 +119,7 @@ func (eng *Engine) runUnit(us UnitSpec) (res *UnitResult) {
 	ex.sc.emit("(declare-fun STR_EMPTY_ARR () (Array Int Str))")
 	ex.sc.axiom("(forall ((i Int)) (! (= (select STR_EMPTY_ARR i) STR_EMPTY) :pattern ((select STR_EMPTY_ARR i))))")
 	ex.sc.decls["STR_EMPTY"] = sStr
-	if us.Locks {
+	if us.Locks || us.Interfere {
 		ex.guards = eng.buildGuards(ex)
 	}
 	st := newState()
